@@ -304,12 +304,12 @@ class DurationTypeIO(GraphSONTypeIO):
     cql_type = 'duration'
 
     _duration_regex = re.compile(r"""
-        ^P((?P<days>\d+)D)?
+        ^(?P<sign>-)?P((?P<days>\d+)D)?
         T((?P<hours>\d+)H)?
         ((?P<minutes>\d+)M)?
         ((?P<seconds>[0-9.]+)S)?$
     """, re.VERBOSE)
-    _duration_format = "P{days}DT{hours}H{minutes}M{seconds}S"
+    _duration_format = "{sign}P{days}DT{hours}H{minutes}M{seconds}S"
 
     _seconds_in_minute = 60
     _seconds_in_hour = 60 * _seconds_in_minute
@@ -317,14 +317,18 @@ class DurationTypeIO(GraphSONTypeIO):
 
     @classmethod
     def serialize(cls, value, writer=None):
-        total_seconds = int(value.total_seconds())
+        # a negative duration is written as the negated absolute value (ISO-8601 / java.time.Duration accept the leading sign);
+        # seconds are written in fixed notation from the integer fields (str(float) gives 1e-06 for one microsecond)
+        sign = '-' if value < datetime.timedelta(0) else ''
+        value = abs(value)
+        total_seconds = value.days * cls._seconds_in_day + value.seconds
         days, total_seconds = divmod(total_seconds, cls._seconds_in_day)
         hours, total_seconds = divmod(total_seconds, cls._seconds_in_hour)
         minutes, total_seconds = divmod(total_seconds, cls._seconds_in_minute)
-        total_seconds += value.microseconds / 1e6
+        seconds = '%d.%06d' % (total_seconds, value.microseconds) if value.microseconds else '%d.0' % total_seconds
 
         return cls._duration_format.format(
-            days=int(days), hours=int(hours), minutes=int(minutes), seconds=total_seconds
+            sign=sign, days=int(days), hours=int(hours), minutes=int(minutes), seconds=seconds
         )
 
     @classmethod
@@ -333,10 +337,16 @@ class DurationTypeIO(GraphSONTypeIO):
         if duration is None:
             raise ValueError('Invalid duration: {0}'.format(value))
 
-        duration = {k: float(v) if v is not None else 0
-                    for k, v in duration.groupdict().items()}
-        return datetime.timedelta(days=duration['days'], hours=duration['hours'],
-                                  minutes=duration['minutes'], seconds=duration['seconds'])
+        groups = duration.groupdict()
+        negative = groups.pop('sign') is not None
+        seconds = groups.pop('seconds')
+        duration = {k: int(v) if v is not None else 0 for k, v in groups.items()}
+        # whole seconds and the fraction separately: float seconds lose the microsecond for very long durations
+        whole, _, fraction = (seconds or '0').partition('.')
+        microseconds = int((fraction + '000000')[:6]) if fraction else 0
+        result = datetime.timedelta(days=duration['days'], hours=duration['hours'], minutes=duration['minutes'],
+                                    seconds=int(whole or 0), microseconds=microseconds)
+        return -result if negative else result
 
 
 class DseDurationTypeIO(GraphSONTypeIO):
